@@ -22,10 +22,10 @@ from harness import gallina as G
 ID = "C29"
 COQ_DIRS = ["C29"]
 PROPERTY_FILE = "C29/Property.v"
-RUN_IMPORTS = "From TV Require Import C29.Model C29.Run."
-RUN_FN = "run_case"
-CHECK_FN = "check_case"
-INPUT_TYPE = "input"
+RUN_IMPORTS = "From TV Require Import C29.Model C29.Run C29.ModelP4."
+RUN_FN = "run_case2"
+CHECK_FN = "check_case2"
+INPUT_TYPE = "input2"
 
 
 
@@ -117,6 +117,7 @@ class FakeConn:
         assert self.headers is None, "write_headers called twice"
         self.code = start_line.code
         self.headers = {n: list(headers.get_list(n)) for n in NAMES}
+        self.etag = list(headers.get_list("Etag"))
         self.chunks.append(bytes(chunk if chunk is not None else b""))
         return self._done()
 
@@ -152,6 +153,8 @@ def _drive(case):
     rh.add("Host", "example.com")
     for v in case["ae"]:
         rh.add("Accept-Encoding", v)
+    if case.get("inm") is not None:
+        rh.add("If-None-Match", inm_value(case))
     with warnings.catch_warnings():
         warnings.simplefilter("ignore")
         req = HTTPServerRequest(headers=rh, connection=conn,
@@ -252,7 +255,7 @@ def run_impl(case):
         hd, chunks = conn.headers, [c.decode("latin-1") for c in conn.chunks]
     else:
         hd, chunks = _canon_real(conn, gzipping)
-    return [conn.code] + [[v for v in hd[n]] for n in NAMES] + [chunks]
+    return [conn.code] + [[v for v in hd[n]] for n in NAMES] + [chunks] + [conn.etag]
 
 
 # ---------------------------------------------------------------- Gallina rendering
@@ -276,7 +279,26 @@ def ae_value(case):
     return ",".join(case["ae"]) if case["ae"] else None
 
 
+def digest(case):
+    """hex SHA-1 of the bytes the handler wrote (hashlib, independent of tornado)"""
+    import hashlib
+    data = b"".join(chunk_bytes(o[1]) for o in case["prog"] if o[0] == "W")
+    if case["fin"] is not None:
+        data += chunk_bytes(case["fin"])
+    return hashlib.sha1(data).hexdigest()
+
+
+def inm_value(case):
+    """If-None-Match request header; %E% stands for the hex digest of the written bytes"""
+    return case["inm"].replace("%E%", digest(case))
+
+
 def coq_input(case):
+    return "(%s, %s, %s)" % (coq_input1(case), G.goption(None if case.get("inm") is None else inm_value(case), G.gbytes, "bytes"),
+                             G.gbytes(digest(case)))
+
+
+def coq_input1(case):
     return "(%s, %s, %s, %s, %s, %s)" % (
         G.gbool(case["toy"]), G.gbool(case["head"]), G.gbool(case["comp"]),
         G.glist([G.gbytes(v) for v in case["ae"]], "bytes"),
@@ -320,7 +342,51 @@ def bodiless(code):
     return code in (204, 304) or 100 <= code < 200
 
 
+def py_etag_matches(computed, inm):
+    """check_etag_header, restated"""
+    import re
+    etags = re.findall(rb'\*|(?:W/)?"[^"]*"', inm)
+    if not computed or not etags:
+        return False
+    if etags[0] == b"*":
+        return True
+    val = lambda x: x[2:] if x.startswith(b"W/") else x
+    return any(val(e) == val(computed) for e in etags)
+
+
 def py_check(case, o):
+    if not (isinstance(o, list) and len(o) == 7):
+        return py_check1(case, o)
+    from tornado.httputil import HTTPHeaders
+    base, et = o[:6], o[6]
+    hh = HTTPHeaders()
+    hh["Content-Type"] = "text/html; charset=UTF-8"
+    status, flushed = 200, False
+    for op in case["prog"]:
+        if op[0] == "F":
+            flushed = True
+            break
+        if op[0] == "H":
+            hh[op[1]] = op[2]
+        elif op[0] == "A":
+            hh.add(op[1], op[2])
+        elif op[0] == "C" and op[1] in hh:
+            del hh[op[1]]
+        elif op[0] == "S":
+            status = op[1]
+    applies = (not flushed) and status == 200 and "Etag" not in hh
+    tag = '"%s"' % digest(case)
+    inm = b"" if case.get("inm") is None else inm_value(case).encode("latin-1")
+    if applies and py_etag_matches(tag.encode(), inm):
+        code, vary, ce, cl, ct, chunks = base
+        ok = code == 304 and ce == [] and ct == [] and "".join(chunks) == "" and et == [tag] and cl == hh.get_list("Content-Length")
+        if case["comp"]:
+            return ok and any(f.strip(" \t") == "Accept-Encoding" for v in vary for f in v.split(","))
+        return ok and vary == hh.get_list("Vary")
+    return py_check1(case, base) and et == ([tag] if applies else hh.get_list("Etag"))
+
+
+def py_check1(case, o):
     """the property on the implementation's observable, with the handler's own headers replayed on a
     real HTTPHeaders object (independent of the Coq model)"""
     from tornado.httputil import HTTPHeaders
@@ -424,9 +490,33 @@ NAME_VARIANTS = {
 }
 
 
-def mk(toy, head, ae, prog, fin=None, comp=True):
+def mk(toy, head, ae, prog, fin=None, comp=True, inm=None):
     ae = [] if ae is None else [ae] if isinstance(ae, str) else list(ae)
-    return {"toy": bool(toy), "head": bool(head), "comp": bool(comp), "ae": ae, "prog": [list(o) for o in prog], "fin": fin}
+    return {"toy": bool(toy), "head": bool(head), "comp": bool(comp), "ae": ae, "prog": [list(o) for o in prog], "fin": fin, "inm": inm}
+
+
+INMS = ['"%E%"', 'W/"%E%"', "*", '"x", "%E%"', '"x", W/"%E%" , "y"', '"abc"', "abc", '"%E%', 'W/"x"', "", '%E%', '"x" *', 'w/"%E%"']
+
+
+def etag_cases(rng, quick):
+    """If-None-Match matches / mismatches x gzip on/off x compress_response x body shapes"""
+    out = []
+    bodies = [[["W", "hello"]], [["W", [1100, 65, 0]]], [], [["W", "a"], ["W", ""]],
+              [["H", "Content-Type", "image/png"], ["W", [1100, 7, 3]]], [["H", "Content-Encoding", "br"], ["W", "xyz"]],
+              [["H", "Content-Length", "5"], ["H", "Vary", "Cookie"], ["W", "hello"]]]
+    others = [[["W", "hello"], ["F"]], [["F"], ["W", "x"]], [["S", 404], ["W", "hello"]], [["H", "Etag", '"mine"'], ["W", "hello"]],
+              [["S", 201], ["S", 200], ["W", "hello"]], [["H", "etag", '"%s"' % ("0" * 40)], ["C", "Etag"], ["W", "q"]]]
+    for body in bodies + others:
+        big = any(o[0] == "W" and not isinstance(o[1], str) for o in body)
+        for inm in ((INMS[:3] if big else INMS[:6]) if quick else INMS):
+            for ae in ("gzip", None):
+                toy = len(out) % 3 != 0
+                out.append(mk(toy, False, ae, body, None, True, inm))
+            out.append(mk(True, len(out) % 2 == 0, "gzip", body, "z" if len(out) % 4 == 0 else None, len(out) % 5 != 0, inm))
+    for inm in (INMS[3:8] if quick else INMS):
+        out.append(mk(False, False, "gzip", [["W", [1100, 65, 0]]], None, True, inm))
+        out.append(mk(True, False, "gzip", [["W", [1100, 65, 0]]], None, False, inm))
+    return out
 
 
 def small_chunk(rng):
@@ -522,6 +612,8 @@ def decorate(rng, c):
             c["prog"].insert(rng.randrange(len(c["prog"]) + 1), ["S", rng.choice(STATUSES)])
     if rng.random() < 0.12:
         c["comp"] = False
+    if rng.random() < 0.2:
+        c["inm"] = rng.choice(INMS)
     if rng.random() < 0.12:
         c["ae"] = rng.choice([["deflate", "gzip"], ["gz", "ip"], ["br", "identity"], ["gzip", "gzip"], ["", "gzip;q=0"], ["x", "y", "z"]])
     return c
@@ -616,6 +708,10 @@ def corpus_cases():
         mk(True, False, "gzip", [["S", 204]]),
         mk(True, False, "gzip", [["S", 204], ["W", "x"]]),
         mk(True, False, "gzip", [["W", [1100, 65, 0]]], comp=False),
+        # ETag / If-None-Match: same tag with and without gzip; a match gives a bare 304
+        mk(False, False, "gzip", [["W", [1100, 65, 0]]], inm='"%E%"'),
+        mk(False, False, None, [["W", [1100, 65, 0]]], inm='"%E%"'),
+        mk(True, False, "gzip", [["W", [1100, 65, 0]]], inm='"nope"'),
         mk(False, False, ["deflate", "gzip"], [["W", [1100, 65, 0]]]),
         # flush before finish (Content-Length dropped; chunked or close-delimited downstream)
         mk(False, False, "gzip", [["W", "hello"], ["F"], ["W", " world"]]),
@@ -630,6 +726,7 @@ def gen_cases(rng, tier):
     quick = tier != "thorough"
     out += boundary_cases(rng, [True, False], quick)
     out += status_cases([True, False], quick)
+    out += etag_cases(rng, quick)
     for ct in ("text/html", "image/png"):
         for prog in ([["W", "abc"]], [["W", "abc"], ["F"], ["W", "d"]], [["H", "Vary", "Cookie"], ["F"]], [["W", [1024, 1, 1]]]):
             out.append(mk(len(out) % 2 == 0, False, "gzip", [["H", "Content-Type", ct]] + prog, comp=False))
@@ -676,9 +773,9 @@ def gen_cases(rng, tier):
     for p in enum_progs([w1, wf, s204, hv], 2 if quick else 3):
         out.append(mk(len(out) % 2 == 0, False, "gzip", p, comp=False))
         out.append(mk(True, True, "gzip", p))
-    for _ in range(400 if quick else 2400):
+    for _ in range(280 if quick else 2400):
         out.append(decorate(rng, rand_case(rng, 0.07 if quick else 0.05)))
-    for _ in range(120 if quick else 700):
+    for _ in range(90 if quick else 700):
         out.append(decorate(rng, soup_case(rng)))
     # spread the heavy cases (>= 512-byte chunks) evenly so that the coqc shards are balanced
     heavy = [c for c in out if total_len(c["prog"], c["fin"]) >= 512]
@@ -700,7 +797,7 @@ def gen_cases(rng, tier):
 def nontrivial(case, o):
     if not isinstance(o, (list, G.Tag)):
         return None
-    return (case["toy"], case["head"], case["comp"], repr(case["ae"]), repr(case["prog"]), repr(case["fin"]))
+    return (case["toy"], case["head"], case["comp"], repr(case["ae"]), repr(case["prog"]), repr(case["fin"]), case.get("inm"))
 
 
 def classify(case, o):
@@ -715,6 +812,7 @@ def classify(case, o):
     yield "body=" + ("0" if t == 0 else "<1024" if t < 1024 else "1024" if t == 1024 else ">1024")
     yield "accept-encoding=" + ("absent" if not case["ae"] else "mentions-gzip" if "gzip" in ae_value(case) else "other") + (" (several headers)" if len(case["ae"]) > 1 else "")
     yield "compress_response=" + str(case["comp"])
+    yield "if-none-match=" + ("absent" if case.get("inm") is None else "etag-304" if (isinstance(o, list) and o[0] == 304 and not any(x[0] == "S" for x in case["prog"])) else "present")
     if isinstance(o, list):
         yield "status=" + ("bodiless" if bodiless(o[0]) else "other")
     else:
@@ -754,7 +852,7 @@ TRUSTED_BASE = [
     "HTTPHeaders name normalisation / joining is modelled for ASCII token names and valid values (validation errors are C06/C07's subject)",
 ]
 ASSUMPTIONS = [
-    "GET or HEAD, any set_status code (204/304/1xx paths of finish included), no If-None-Match (no ETag-driven 304); transforms = [GZipContentEncoding] or [] (compress_response)",
+    "GET or HEAD, any set_status code (204/304/1xx paths of finish included), If-None-Match / ETag block of finish included (SHA-1 is a parameter: the harness supplies hashlib's digest of the written bytes); transforms = [GZipContentEncoding] or [] (compress_response)",
     "header names are ASCII tokens and values pass _convert_header_value / HTTPHeaders validation",
     "the handler does not call finish() twice or write after finish; the program is a list of set_header/add_header/clear_header/write/flush calls followed by finish([chunk])",
 ]
@@ -770,5 +868,5 @@ LEVEL_TEXT = ("Machine-checked (Coq) proofs over an executable model of GZipCont
               "is the encoded body length; without compress_response nothing is touched; finish() asserts exactly on bodiless status + unflushed write. The decision logic is regenerated from web.py by a fail-closed translator and proved equal to the model's. The model is compared with "
               "the real RequestHandler on every generated case (all bytes, with a toy codec; decoded by zlib, with the real gzip).")
 LEVEL_NOTE = ("Trusted: Coq kernel/vm_compute; zlib/gzip correctness (hypothesis codec_ok, exercised by real decoding in the harness); the recording fake connection; "
-              "the correspondence harness; the ast translator. ETag-driven 304, cookies and other transforms are outside the model.")
+              "the correspondence harness; the ast translator; SHA-1 (parameter); C02's etag_matches scanner for If-None-Match. Cookies and other transforms are outside the model.")
 TECHNIQUE = "Coq proof (phase invariant over the operation list, codec as a universally quantified record) + differential correspondence via vm_compute with a toy codec and with real gzip"
